@@ -177,6 +177,30 @@ def run(F, tier, res):
                     okp += 1
         res.rule('C13.PHASES', np_, 6, 'ordered pairs of the four feature sources in gather_features (sizes %s)' % [len(x[1]) for x in phases], discharged=okp)
 
+    # ---------- WALK: the custom section of every feature handed to the recursive gatherer is always walked ("features enabled by
+    # features"): on every path through it, the lookup of delta.<feature>.features and the scan of the section's feature flags run
+    gfr = [q for q in F.fn_bodies if q.endswith('::gather_features_recursively')]
+    nwk = okwk = 0
+    if not gfr:
+        res.anchor_missing('gather_features_recursively')
+    for q in gfr:
+        lookups = set()
+        for i, c in F.calls(q):
+            if callee_of(c).endswith('GitConfig::get') and len(c['args']) > 1:
+                lits = Ru.str_lits(F, q, c['args'][1])
+                snip = ' '.join(str((c.get(k) or {}).get('snippet', '')) for k in ('span', 'tspan'))
+                if any('features' in l for l in lits) or '.features' in snip or any(r[0] == 'call' and 'format' in r[1] for r in F.trace(q, c['args'][1], deep=True)):
+                    lookups.add(i)
+        flags = {i for i, c in F.calls(q) if callee_of(c).endswith('gather_builtin_features_from_flags_in_gitconfig')}
+        for name, via in (('the delta.<feature>.features lookup', lookups), ('the scan of the section\'s feature flags', flags)):
+            nwk += 1
+            if via and not Ru.must_pass(F, q, 0, via):
+                okwk += 1
+            else:
+                res.violate('WALK', 'fn=%s;%s' % (q, 'lookup' if via is lookups else 'flags'), 'some path through the recursive feature gatherer skips %s: a feature that is already in the list '
+                            '(e.g. pulled in as a built-in by another feature or a flag) never has its own gitconfig section walked, and the features it enables are dropped' % name,
+                            where=F.bodies[q]['mir']['span']['at'])
+    res.rule('C13.WALK', nwk, 2, 'recursive feature gatherer: sub-feature lookup and flag scan on every path', discharged=okwk)
     # ---------- NO-GITCONFIG
     gcg = [p for p in F.fn_bodies if p.endswith('GitConfigGet>::git_config_get') or p.endswith('::git_config_get')]
     ng = okg = 0
